@@ -251,7 +251,7 @@ func runC09(c *fw.Ctx) {
 	}
 	depth := 4
 	if c.Thorough() {
-		depth = 5
+		depth = 6
 	}
 	for _, mode := range []string{"restart", "diff"} {
 		al := alpha
